@@ -112,18 +112,28 @@ func (p *RawParams) AddUpload(upload Upload, key, path string) *gqlerror.Error {
 		if ptr == nil {
 			return gqlerror.Errorf("path is missing \"variables.\" prefix, key: %s, path: %s", key, path)
 		}
-		if index, parseNbrErr := strconv.Atoi(p); parseNbrErr == nil {
-			if last {
-				ptr.([]any)[index] = upload
-			} else {
-				ptr = ptr.([]any)[index]
+		switch container := ptr.(type) {
+		case []any:
+			index, parseNbrErr := strconv.Atoi(p)
+			if parseNbrErr != nil || index < 0 || index >= len(container) {
+				return gqlerror.Errorf("invalid operations paths for key %s, path: %s", key, path)
 			}
-		} else {
 			if last {
-				ptr.(map[string]any)[p] = upload
+				container[index] = upload
 			} else {
-				ptr = ptr.(map[string]any)[p]
+				ptr = container[index]
 			}
+		case map[string]any:
+			if last {
+				if container == nil {
+					return gqlerror.Errorf("path is missing \"variables.\" prefix, key: %s, path: %s", key, path)
+				}
+				container[p] = upload
+			} else {
+				ptr = container[p]
+			}
+		default:
+			return gqlerror.Errorf("invalid operations paths for key %s, path: %s", key, path)
 		}
 	}
 
